@@ -49,6 +49,9 @@ func exprKey(v ssa.Value, depth int) string {
 	case *ssa.UnOp:
 		switch x.Op {
 		case token.MUL:
+			if p := Unspill(x); p != ssa.Value(x) {
+				return exprKey(p, depth+1)
+			}
 			return exprKey(x.X, depth+1)
 		case token.NOT:
 			return "!" + exprKey(x.X, depth+1)
